@@ -195,6 +195,24 @@ def _diversify(e, inp, replay, seed, budget=120):
 
 
 def run_case(job):
+    """never lets the watchdog's exception escape into the pool (a lost worker would hang the whole check)"""
+    import signal
+    hname, params, tier, kfs, seed = job
+    t0 = time.time()
+    try:
+        return _run_case(job)
+    except CaseDeadline:
+        return dict(harness=hname, params=params, paths=0, status={'deadline': 1}, violations=[], known=[], samples=[], replays=0,
+                    spurious=0, reach=0, wall=round(time.time() - t0, 2), unmodelled_calls={},
+                    undecided=[{'why': 'deadline: watchdog fired outside the exploration (replays of undecided paths)'}])
+    finally:
+        try:
+            signal.setitimer(signal.ITIMER_REAL, 0)
+        except (ValueError, AttributeError):
+            pass
+
+
+def _run_case(job):
     hname, params, tier, kfs, seed = job
     h = REGISTRY[hname]
     env = _W['env']
